@@ -98,6 +98,8 @@ type Rig struct {
 	res            *Result
 	wg             sync.WaitGroup
 	baseline       int
+	lateShutdown   atomic.Bool // shutdownResolver's report did not show within the watchdog (set by the call goroutine)
+	unsound        bool // a wait expired while something was still running: the model no longer describes the run
 	openGoroutines int // goroutines of the open split: the parked call (and its worker), blocked nested calls
 	stepNo         int
 	t0             time.Time
@@ -336,7 +338,7 @@ func (g *Rig) waitPark(st Step, done chan struct{}) bool {
 			return false
 		}
 		if !g.bus.Wait(currentWatchdog(), func() bool { return g.sched.Parked() != nil }) {
-			g.expire("start goroutine never arrived at " + st.Split.Point)
+			g.expired("start goroutine never arrived at " + st.Split.Point)
 			return false
 		}
 		return true
@@ -350,7 +352,7 @@ func (g *Rig) waitPark(st Step, done chan struct{}) bool {
 		}
 	}
 	if !g.bus.Wait(currentWatchdog(), func() bool { return g.sched.Parked() != nil || finished() }) {
-		g.expire("neither parked at " + st.Split.Point + " nor returned: " + st.String())
+		g.expired("neither parked at " + st.Split.Point + " nor returned: " + st.String())
 		return false
 	}
 	return g.sched.Parked() != nil
@@ -363,7 +365,7 @@ func (g *Rig) waitDone(done chan struct{}, what string) bool {
 	case <-done:
 		return true
 	case <-t.C:
-		g.expire("waiting for " + what)
+		g.expired("waiting for " + what)
 		return false
 	}
 }
@@ -406,6 +408,9 @@ type callRec struct {
 func (g *Rig) perform(st Step) *callRec {
 	c := g.performAsync(st)
 	g.waitDone(c.done, "return of "+st.String())
+	if g.lateShutdown.Load() && !g.unsound {
+		g.expired("shutdownResolver did not report SubscriptionCountDec")
+	}
 	if st.Op != OpSubscribe {
 		g.modelBegin(st, false)
 	}
@@ -585,7 +590,7 @@ func (g *Rig) prepare(st Step) func() {
 			// shutdownResolver runs in a goroutine of its own (context.AfterFunc); it reports
 			// SubscriptionCountDec(n) once, also for n == 0, when the registry has been emptied
 			if !g.bus.Wait(currentWatchdog(), func() bool { return g.rep.SubDecCalls.Load() > before }) {
-				g.expire("shutdownResolver did not report SubscriptionCountDec")
+				g.lateShutdown.Store(true)
 			}
 		}
 	case OpReleaseStart:
@@ -707,7 +712,11 @@ func (g *Rig) expired(what string) {
 	deadline := time.Now().Add(2 * time.Second)
 	for runtime.NumGoroutine() != want {
 		if time.Now().After(deadline) {
-			g.trace("  %d goroutines, %d accounted for: something is still running, no verdict", runtime.NumGoroutine(), want)
+			// Something is still running (or a call has not even returned): it will act later,
+			// in a state the model does not describe. From here on only the clauses that do not
+			// depend on the model (sequence numbers of real calls) are sound.
+			g.unsound = true
+			g.trace("  %d goroutines, %d accounted for: something is still running, no verdict; model-based clauses are off for the rest of the case", runtime.NumGoroutine(), want)
 			return
 		}
 		time.Sleep(time.Millisecond)
@@ -820,6 +829,9 @@ func (g *Rig) stamp(tok int, st Step, call *callRec) {
 // ---- checks at quiet points -----------------------------------------------------------------
 
 func (g *Rig) checkQuiet(when string) {
+	if g.unsound {
+		return
+	}
 	m := g.m
 	et, es, ec := m.RegistrySizes()
 	if t, s, c := g.r.VerifRegistrySizes(); t != et || s != es || c != ec {
@@ -961,8 +973,8 @@ func (g *Rig) finish() {
 		}
 	}
 	g.stepNo = -1
-	g.trace("quiescent=%v", quiet)
-	g.finalOracle(quiet)
+	g.trace("quiescent=%v model-based clauses=%v", quiet, !g.unsound)
+	g.finalOracle(quiet, !g.unsound)
 	if g.res.Expired != "" && len(g.res.Violations) == 0 {
 		g.res.Inconclusive = "watchdog: " + g.res.Expired + "\n" + strings.Join(g.res.Trace, "\n")
 	}
